@@ -28,6 +28,15 @@ TRecv == /\ l <= Len(Rec) /\ Rec[l].ev = "recv"
          /\ LET e == Rec[l] IN HRecv(Frame(e), e.fi, e.nf, e.size) /\ OutMatches(e)
          /\ l' = l + 1 /\ hon' = (Rec[l].fi >= 0) /\ UNCHANGED strict
 
+\* end-to-end driver: the frame is inferred from the sender's configuration and only
+\* "a packet came out (size)" / "nothing came out" is observable behind the WireGuard layer
+TRecvX == /\ l <= Len(Rec) /\ Rec[l].ev = "recvx"
+          /\ LET e == Rec[l] IN
+               /\ HRecv(Frame(e), e.fi, e.nf, e.size)
+               /\ (e.out.kind = "emit" => (out'.kind = "emit" /\ out'.so = e.out.so /\ out'.size = e.out.size))
+               /\ (e.out.kind = "quiet" => out'.kind \in {"none", "err"})
+          /\ l' = l + 1 /\ hon' = TRUE /\ UNCHANGED strict
+
 TReset == /\ l <= Len(Rec) /\ Rec[l].ev = "reset"
           /\ slots' = [q \in 1..Q |-> Slot0]
           /\ owner' = [q \in 1..Q |-> [c \in Cells |-> NONE]]
@@ -40,7 +49,7 @@ TShort == /\ l <= Len(Rec) /\ Rec[l].ev = "short"
           /\ RecvShort /\ out'.kind = Rec[l].out.kind /\ out'.class = Rec[l].out.class
           /\ l' = l + 1 /\ hon' = FALSE /\ UNCHANGED <<got, dead, meta, strict>>
 
-TNext == TRecv \/ TReset \/ TShort
+TNext == TRecv \/ TRecvX \/ TReset \/ TShort
 TSpec == TInit /\ [][TNext]_tvars
 
 StrictComplete == strict => CompleteIfAllArrive
